@@ -118,6 +118,7 @@ Token *tokenize_file(char *filename);
 //
 
 char *search_include_paths(char *filename);
+int include_next_position(void);
 void init_macros(void);
 void define_macro(char *name, char *buf);
 void undef_macro(char *name);
